@@ -16,7 +16,7 @@ feed_data, feed_eof is called exactly on the eof edge, the sender slot is restor
 edge, with no suspension point between taking the sender and that; the Publish arms stream through
 Payload::from_stream exactly when the announced size differs from the first piece and install the sender
 before their first await. The sequence of items for every cut of a concrete byte stream is not
-enumerated; nothing is executed (the evaluation is of extracted path conditions over small integers). feed (continued): no path leaves a PayloadChunk arm without consulting the sender slot, and with a sender present the bytes are fed and the sender is completed or restored; consume-implies-state (continued): functions that look into a possibly incomplete frame read variable byte integers only through the tolerant reader (Ok(None) when cut). feed (continued): inside the protocol dispatchers drop_payload runs only where the connection is torn down (a drop_sink / close precedes it, or every way out afterwards tears down or reports an error). feed (continued): the request classifiers the in-flight limiter relies on (`is_publish`, `is_chunk` of Decoded) are plain tests of the item's variant - true for every Publish / PayloadChunk, for nothing else, depending on nothing else.
+enumerated; nothing is executed (the evaluation is of extracted path conditions over small integers). feed (continued): no path leaves a PayloadChunk arm without consulting the sender slot, and with a sender present the bytes are fed and the sender is completed or restored; consume-implies-state (continued): functions that look into a possibly incomplete frame read variable byte integers only through the tolerant reader (Ok(None) when cut). feed (continued): inside the protocol dispatchers drop_payload runs only where the connection is torn down (a drop_sink / close precedes it, or every way out afterwards tears down or reports an error). feed (continued): the request classifiers the in-flight limiter relies on (`is_publish`, `is_chunk` of Decoded) are plain tests of the item's variant - true for every Publish / PayloadChunk, for nothing else, depending on nothing else. feed (continued): the four connection set-up functions install cfg.min_chunk_size into the decoder on every path that accepts the connection.
 """
 import itertools
 from facts import *
